@@ -177,6 +177,25 @@ def asarray(x, kind=None):
             k = kind or probe.kind
             return Arr(((n,),) + tuple(probe.axes),
                        lambda idx, x=x: x.get(idx[0][0]).cell(idx[1:]), k)
+        if isinstance(probe, (tuple, list)) and all(is_scalar(e) for e in probe):
+            # list of fixed-width rows of scalars -> 2-D array
+            w = len(probe)
+            k = kind
+            if k is None:
+                k = sym.kind_of(probe[0]) if w else "float"
+                for e in probe[1:]:
+                    k = sym.kind_join(k, sym.kind_of(e))
+
+            def fn2(idx, x=x, k=k, w=w):
+                row = x.get(idx[0][0])
+                j = idx[1][0]
+                if is_pyint(j):
+                    return sym.cast(row[j], k)
+                v = sym.cast(row[w - 1], k)
+                for q in range(w - 2, -1, -1):
+                    v = ite(sym.eq(j, q), sym.cast(row[q], k), v)
+                return v
+            return Arr(((n,), (w,)), fn2, k)
         raise Unsupported("np.array of a symbolic list of non-arrays")
     raise Unsupported(f"asarray({type(x).__name__})")
 
